@@ -170,6 +170,42 @@ pub fn g9(block_sizes: &[u32]) -> Group {
     }
 }
 
+/// GN: narrow widths, where a Rice parameter can be as wide as the samples: bps{8,12} x content with a
+/// full-scale alternating stretch / square waves / noise bursts x Rice cap x order selection x
+/// predictor switches x mono/stereo x block sizes.
+pub fn gn() -> Group {
+    let mut cases = Vec::new();
+    let base = base_case(1);
+    for &bps in &[8u8, 12] {
+        for &a in &[33u8, 4, 11, 27, 24, 30] {
+            for &mp in &[14u8, 13, 9, 8, 7, 6, 3, 0] {
+                for &os in &[0u8, 16] {
+                    for sw in 1..4u8 {
+                        for &(ch, rel) in &[(1u8, 0u8), (2, 0), (2, 2)] {
+                            for &bs in &[192u32, 256, 4096] {
+                                let mut c = base.clone();
+                                c.input.bps = bps;
+                                c.input.atoms = [a, a, 0, a];
+                                c.cfg.max_param = mp;
+                                c.cfg.order_sel = os;
+                                c.cfg.use_fixed = sw & 1 != 0;
+                                c.cfg.use_lpc = sw & 2 != 0;
+                                c.input.ch = ch;
+                                c.input.rel = rel;
+                                c.input.bs = bs;
+                                c.input.full = 1;
+                                c.input.tail = if bs >= 576 { 0 } else { 130 };
+                                cases.push(c);
+                            }
+                        }
+                    }
+                }
+            }
+        }
+    }
+    Group { name: "GN", describe: "GN: full product bps{8,12} x atoms{33 (full-scale alternating stretch in a quiet block),4,11,27,24,30} x max_parameter{14,13,9,8,7,6,3,0} x order_sel{BitCount,AE16} x (use_fixed,use_lpc)(3) x {mono, stereo, inverted stereo} x block sizes{192,256,4096}".to_string(), cases }
+}
+
 /// Runs `f` on every case of U_d plus the given dense groups (or on the single replay case).
 pub fn drive<F>(args: &Args, rep: &Arc<Report>, d: usize, restrict_large: bool, groups: Vec<Group>, f: F)
 where
